@@ -1318,6 +1318,9 @@ type fatalIn struct {
 	Forbidden int    `json:"forbidden"` // how many of the three watched kinds have a Forbidden LIST
 	ConsDelay int    `json:"consDelay"` // ms before the consumer starts receiving
 	Trial     int    `json:"trial"`
+	// what the failing LISTs answer: "" = Forbidden (fatal), "notfound" = the resource is not registered (its informers are
+	// stopped, nothing else happens), "servererr" = 500 (retried for ever)
+	Mode string `json:"mode,omitempty"`
 }
 
 type fatalOut struct {
@@ -1341,6 +1344,12 @@ func runFatalCase(in fatalIn) (out fatalOut) {
 		res := kinds[k].resource
 		gr := schema.GroupResource{Group: kinds[k].gvk.Group, Resource: res}
 		cl.client.PrependReactor("list", res, func(a clienttesting.Action) (bool, k8sruntime.Object, error) {
+			switch in.Mode {
+			case "notfound":
+				return true, nil, apierrors.NewNotFound(gr, "")
+			case "servererr":
+				return true, nil, apierrors.NewInternalError(fmt.Errorf("boom"))
+			}
 			return true, nil, apierrors.NewForbidden(gr, "", fmt.Errorf("not allowed"))
 		})
 	}
@@ -1377,8 +1386,8 @@ func runFatalCase(in fatalIn) (out fatalOut) {
 		}
 	}()
 	tmo := 6 * time.Second
-	if in.Forbidden == 0 {
-		// nothing fails: the watcher runs until cancelled
+	if in.Forbidden == 0 || in.Mode != "" {
+		// nothing fails fatally: the watcher runs until cancelled
 		time.Sleep(250 * time.Millisecond)
 		cancel()
 	}
@@ -1409,6 +1418,11 @@ func genFatal(out *proto.Out, rng *proto.Rng, tier string) {
 			}
 			for t := 0; t < 14; t++ {
 				ins = append(ins, fatalIn{Scope: scope, Forbidden: 3, ConsDelay: rng.Intn(4) * 10, Trial: r*14 + t})
+			}
+			for _, mode := range []string{"notfound", "servererr"} {
+				for k := 1; k <= 3; k++ {
+					ins = append(ins, fatalIn{Scope: scope, Forbidden: k, Mode: mode, Trial: r})
+				}
 			}
 		}
 	}
